@@ -105,6 +105,34 @@ func c17R1(p *Prog, r *Report) {
 		idEdges[k] = pm.EqConstEdges(isID, k)
 		anyID = append(anyID, idEdges[k]...)
 	}
+	// every record of the answer (and, for negative answers, authority) section lowers the expiry:
+	// after a header was read successfully, the next header cannot be read without passing the
+	// minimum-expiry test on the way — whatever the record's type
+	var minTests []int
+	for _, cv := range pm.G.V {
+		if cv.Kind == VCond && strings.HasSuffix(exprStr(cv.Node), ".expiresAt.IsZero()") {
+			minTests = append(minTests, cv.ID)
+		}
+	}
+	isMin := map[int]bool{}
+	for _, m := range minTests {
+		isMin[m] = true
+	}
+	for _, cs := range pm.AllCalls() {
+		if cs.Fn == nil || (cs.Fn.Name() != "AnswerHeader" && cs.Fn.Name() != "AuthorityHeader") {
+			continue
+		}
+		errE := map[Edge]bool{}
+		for _, e := range cs.ResultEdges(-1, WantNonNil) {
+			errE[e] = true
+		}
+		again := pm.G.ReachAfter(cs.V, func(v *Vertex) bool { return isMin[v.ID] }, func(e Edge) bool { return errE[e] })[cs.V]
+		if cs.Fn.Name() == "AuthorityHeader" {
+			// only SOA records carry the negative TTL: the test may sit inside the SOA case
+			continue
+		}
+		r.Check(len(minTests) > 0 && !again, rule, "dns.(*resultBuilder).parseMsg:every-answer-record-lowers-expiry@"+cs.Fn.Name(), cs.Pos(), "no record of the section is passed over without the minimum-expiry test", "a record can be read and passed over without its TTL entering the minimum (e.g. the test sits only in the address-record cases): a CNAME with a short TTL in front of a long-lived address keeps the cached answer alive past the smallest TTL")
+	}
 	r.Check(len(idEdges[4]) > 0 && len(idEdges[6]) > 0, rule, "dns.(*resultBuilder).parseMsg:id-switch", p.posStr(pm.Body.Pos()), "transaction IDs 4 and 6 are distinguished", "the transaction-ID switch was not found")
 	// default → error
 	// stores
